@@ -191,6 +191,8 @@ var c20Menus = map[string][]c20Outcome{
 		{"exit-nonzero-empty-stdout", true, 0, vexec.Outcome{ExitCode: 1}},
 		{"killed-by-signal", true, 0, vexec.Outcome{ExitCode: -1}},
 		{"killed-after-partial-output", true, 0, vexec.Outcome{ExitCode: -1, Stdout: []byte("<stdin>:1:1: 'os' imported but unused\n")}},
+		// the stream handed to the rule is stdout+stderr combined: a crash writes only to stderr
+		{"crash-traceback-on-stderr", true, 0, vexec.Outcome{ExitCode: 1, Stdout: []byte("Traceback (most recent call last):\n  File \"<frozen runpy>\", line 198, in _run_module_as_main\n/usr/bin/python3: No module named pyflakes\n")}},
 		{"start-failure", true, 0, vexec.Outcome{StartErr: errors.New("fork/exec /fake/pyflakes: exec format error")}},
 		{"stdin-pipe-error", true, 0, vexec.Outcome{PipeErr: errors.New("pipe: too many open files")}},
 		{"stdin-write-error", true, 0, vexec.Outcome{WriteErr: errors.New("write |1: broken pipe")}},
